@@ -105,6 +105,8 @@ func execC15Bubble(p *sim.Program, c *sim.Ctx) {
 			r.opCRL1(i, op)
 		case "sig":
 			r.opSig(i, op)
+		case "ipnc":
+			r.opIPNC(i, op)
 		case "alter", "alterall", "trunc":
 			r.opFault(i, op)
 		}
